@@ -165,26 +165,73 @@ C14(op, A, B, mem) ==
   ELSE {}
 
 (* ---- C11 (token editing) ---- *)
-\* rows: sequence of [idx, word, tag] for this sentence (ascending idx, as the code sorts them)
-C11(op, A, B) ==
+\* op.rows: ascending sequence of [idx, word, tag] for this sentence
+NoEmpty(B) == \A x \in B.nodes : x.y # {}
+C11deleted(A, B, P) ==     \* exactly the tokens at positions P are gone
+  F("C11.untouched",
+    /\ B.n = A.n - Cardinality(P)
+    /\ \A q \in (1..A.n) \ P : Tok(B, Rank(q, P)).a = Tok(A, q).a) \cup
+  F("C11.renumbered", {x.y : x \in TNodes(B)} = {{q} : q \in 1..B.n}) \cup
+  F("C11.pruned", NoEmpty(B)) \cup
+  F("C11.structure", StripIds(B) = StripIds(DeleteToks(A, P)))
+RECURSIVE ValidInserts(_, _)
+ValidInserts(n, rows) ==    \* the rows that are inside the (growing) sentence
+  IF rows = <<>> THEN <<>>
+  ELSE IF Head(rows).idx >= 1 /\ Head(rows).idx <= n + 1
+       THEN <<Head(rows)>> \o ValidInserts(n + 1, Tail(rows))
+       ELSE ValidInserts(n, Tail(rows))
+C11(op, A, B, wc) ==
   LET n == op.name IN
   IF n = "punctuation_delete" THEN
-    LET P == IF PunctPos(A) = 1..A.n THEN {} ELSE PunctPos(A) IN
-    F("C11.untouched",
-      /\ B.n = A.n - Cardinality(P)
-      /\ \A q \in (1..A.n) \ P : Tok(B, Rank(q, P)).a = Tok(A, q).a) \cup
-    F("C11.pruned", \A x \in B.nodes : x.y # {}) \cup
-    F("C11.structure", StripIds(B) = StripIds(DeleteToks(A, P)))
-  ELSE IF n = "delete_terminal" THEN
-    F("C11.untouched",
-      /\ B.n = A.n - 1
-      /\ \A q \in (1..A.n) \ {op.pos} : Tok(B, Rank(q, {op.pos})).a = Tok(A, q).a) \cup
-    F("C11.structure", StripIds(B) = StripIds(DeleteToks(A, {op.pos})))
+    C11deleted(A, B, IF PunctPos(A) = 1..A.n THEN {} ELSE PunctPos(A))
+  ELSE IF n = "delete_terminal" THEN C11deleted(A, B, {op.pos})
+  ELSE IF n = "ptb_delete_traces" THEN
+    LET K == KeptTraces(A, op, wc)
+        keepco == "keepcoindex" \in op.flags
+        P == TracePos(A) \ K
+    IN F("C11.untouched",
+         /\ B.n = A.n - Cardinality(P)
+         /\ \A q \in (1..A.n) \ TracePos(A) : Tok(B, Rank(q, P)).a = Tok(A, q).a) \cup
+       F("C11.renumbered", {x.y : x \in TNodes(B)} = {{q} : q \in 1..B.n}) \cup
+       F("C11.pruned", NoEmpty(B)) \cup
+       F("C11.no_traces",
+         /\ \A x \in TNodes(B) : x.a.lab # NONE_TAG
+         /\ Cardinality({x \in TNodes(B) : x.a.word = "-NONE-"}) = Cardinality(K)) \cup
+       F("C11.no_indices",
+         \A x \in CNodes(B) : LET p == Parse(x.a.lab, DefaultGfSep) IN
+                               p.gap = <<>> /\ (keepco \/ p.co = <<>>)) \cup
+       F("C11.structure", Shape(B) = Shape(PtbDeleteTraces(A, op, wc)))
+  ELSE IF n = "insert_terminals" THEN
+    LET V == ValidInserts(A.n, op.rows)
+        I == {V[k].idx : k \in 1..Len(V)}
+    IN F("C11.inserted_at",
+         /\ B.n = A.n + Len(V)
+         /\ \A k \in 1..Len(V) : B.n >= V[k].idx =>
+               /\ Tok(B, V[k].idx).a.word = V[k].word /\ Tok(B, V[k].idx).a.lab = V[k].tag) \cup
+       F("C11.untouched",
+         /\ B.n = A.n + Len(V)
+         /\ LET old == SortedSeq({p \in 1..B.n : p \notin I}, LAMBDA v : v) IN
+            /\ Len(old) = A.n
+            /\ \A q \in 1..A.n : Tok(B, old[q]).a = Tok(A, q).a) \cup
+       F("C11.out_of_range_ignored", Len(V) = 0 => StripIds(B) = StripIds(A)) \cup
+       F("C11.structure", StripIds(B) = StripIds(InsertTerminals(A, op.rows)))
+  ELSE IF n = "substitute_terminals" THEN
+    LET V == {k \in 1..Len(op.rows) : op.rows[k].idx \in 1..A.n}
+        I == {op.rows[k].idx : k \in V}
+    IN F("C11.untouched",
+         /\ B.n = A.n /\ Shape(A) = Shape(B)
+         /\ \A q \in (1..A.n) \ I : Tok(B, q).a = Tok(A, q).a
+         /\ \A x \in CNodes(A) : \E z \in CNodes(B) : z = x) \cup
+       F("C11.substituted",
+         \A k \in V : LET r == op.rows[k] IN
+            /\ Tok(B, r.idx).a.word = r.word
+            /\ Tok(B, r.idx).a.lab = (IF r.tag = <<>> THEN Tok(A, r.idx).a.lab ELSE r.tag)) \cup
+       F("C11.out_of_range_ignored", V = {} => B = A)
   ELSE {}
 
-Clauses(op, A, B, mem) ==
+Clauses(op, A, B, mem, wc) ==
   C04(op, A, B) \cup C12(op, A, B) \cup C13(op, A, B) \cup C15(op, A, B) \cup
-  C05(op, A, B, mem) \cup C14(op, A, B, mem) \cup C11(op, A, B)
+  C05(op, A, B, mem) \cup C14(op, A, B, mem) \cup C11(op, A, B, wc)
 
 NoTree == [n |-> 0, nodes |-> {}]
 Mem0 == [presplit |-> NoTree, precollapse |-> NoTree]
